@@ -5,7 +5,10 @@ import (
 	"context"
 	"encoding/json"
 	"fmt"
+	"io"
+	"net"
 	"math/rand"
+	"runtime"
 	"strconv"
 	"strings"
 	"sync"
@@ -254,6 +257,130 @@ func pubsubConc(seed int64, rounds int, want map[string]bool, enc *json.Encoder)
 		cancel()
 		for _, s := range subs {
 			s.c.Close()
+		}
+		enc.Encode(rep)
+	}
+}
+
+// handover scenario (C19, concurrent): a channel whose LAST subscriber leaves at the very moment another connection subscribes to it.
+// Whatever the interleaving, a SUBSCRIBE that has been acknowledged is a subscription: the next PUBLISH on that channel counts the new
+// subscriber and reaches it.  (A subscriber that joined a channel object the table has just dropped would be acknowledged and never
+// hear anything.)
+func pubsubHandover(seed int64, rounds int, want map[string]bool, enc *json.Encoder) {
+	if !want["all"] && !want["pubsub"] {
+		return
+	}
+	for r := 0; r < rounds; r++ {
+		rep := concReport{Scenario: "pubsub-handover", Seed: seed + int64(r), Goroutines: 3, Shards: 1024}
+		config.Configures.ShardNum = 1024
+		mgr := server.NewManager(config.Configures)
+		ctx, cancel := context.WithCancel(context.Background())
+		pub := newSconn(ctx, mgr)
+		rng := rand.New(rand.NewSource(seed + int64(r)))
+		const handovers = 400
+		rep.Result = "ok"
+		for h := 0; h < handovers && rep.Result == "ok"; h++ {
+			ch := fmt.Sprintf("flap-%d", h)
+			a := newSconn(ctx, mgr)
+			a.c.Write(encCmd("SUBSCRIBE", ch))
+			if st := a.waitFor([]byte(":1\r\n"), 2*time.Second); st != "open" {
+				rep.Result, rep.Detail = "invariant", fmt.Sprintf("handover %d: first subscriber got no acknowledgement (%s)", h, st)
+				break
+			}
+			b := newSconn(ctx, mgr)
+			var wg sync.WaitGroup
+			wg.Add(2)
+			// the server notices the close a little later (its read returns, its cleanup runs): spread the join over that stretch
+			delay := time.Duration(rng.Intn(400)) * time.Microsecond
+			go func() { defer wg.Done(); a.c.Close() }()
+			go func() {
+				defer wg.Done()
+				if delay > 0 {
+					t0 := time.Now()
+					for time.Since(t0) < delay {
+						runtime.Gosched()
+					}
+				}
+				b.c.Write(encCmd("SUBSCRIBE", ch))
+			}()
+			wg.Wait()
+			if st := b.waitFor([]byte(":1\r\n"), 2*time.Second); st != "open" {
+				rep.Result, rep.Detail = "invariant", fmt.Sprintf("handover %d: second subscriber got no acknowledgement (%s)", h, st)
+				break
+			}
+			b.take()
+			// let the leaver's cleanup finish (it runs on the server side after the close is noticed), then publish
+			for try := 0; try < 3; try++ {
+				time.Sleep(time.Duration(200*(try+1)) * time.Microsecond)
+			}
+			pub.c.SetWriteDeadline(time.Now().Add(2 * time.Second))
+			pub.c.Write(encCmd("PUBLISH", ch, "hello"))
+			if st := pub.waitFor([]byte("\r\n"), 2*time.Second); st != "open" {
+				rep.Result, rep.Detail = "invariant", fmt.Sprintf("handover %d: PUBLISH got no reply (%s)", h, st)
+				break
+			}
+			reply := string(pub.take())
+			cnt, _ := strconv.Atoi(strings.TrimSuffix(strings.TrimPrefix(reply, ":"), "\r\n"))
+			got := b.waitFor([]byte("hello\r\n"), 500*time.Millisecond)
+			if cnt < 1 || got != "open" {
+				rep.Result = "invariant"
+				rep.Detail = fmt.Sprintf("handover %d on %s: SUBSCRIBE was acknowledged, then PUBLISH reported %d receivers and the subscriber %s the message "+
+					"(the previous last subscriber of the channel left while this one joined)", h, ch, cnt, map[bool]string{true: "received", false: "never received"}[got == "open"])
+			}
+			b.c.Close()
+			rep.Ops += 4
+		}
+		cancel()
+		pub.c.Close()
+		// the same handover directly on the subscription table (memdb.ChanMap: what SUBSCRIBE, a leaving connection and PUBLISH call), where
+		// the join and the leave really run at the same instant: 30000 rounds
+		if rep.Result == "ok" {
+			tab := mgr.CurrentDB.SubChans
+			lost, first := 0, -1
+			const apiRounds = 30000
+			for i := 0; i < apiRounds; i++ {
+				ca, sa := net.Pipe()
+				cb, sb := net.Pipe()
+				var gotB atomic.Bool
+				go func() { io.Copy(io.Discard, ca) }()
+				go func() {
+					buf := make([]byte, 64)
+					if n, _ := cb.Read(buf); n > 0 {
+						gotB.Store(true)
+					}
+					io.Copy(io.Discard, cb)
+				}()
+				idA := tab.Subscribe("api-flap", sa)
+				var wg sync.WaitGroup
+				var idB string
+				wg.Add(2)
+				go func() { defer wg.Done(); idB = tab.Subscribe("api-flap", sb) }()
+				go func() { defer wg.Done(); tab.UnSubscribe("api-flap", idA) }()
+				wg.Wait()
+				n := tab.Send("api-flap", "x")
+				if n == 1 {
+					for w := 0; w < 200 && !gotB.Load(); w++ {
+						time.Sleep(50 * time.Microsecond)
+					}
+				}
+				if n != 1 || !gotB.Load() {
+					lost++
+					if first < 0 {
+						first = i
+					}
+				}
+				tab.UnSubscribe("api-flap", idB)
+				sa.Close()
+				sb.Close()
+				ca.Close()
+				cb.Close()
+			}
+			rep.Ops += apiRounds
+			if lost > 0 {
+				rep.Result = "invariant"
+				rep.Detail = fmt.Sprintf("subscription table: in %d of %d handovers (first: round %d) a connection whose Subscribe had returned was not "+
+					"counted / not reached by the next Send (it joined while the previous last subscriber of the channel left)", lost, apiRounds, first)
+			}
 		}
 		enc.Encode(rep)
 	}
